@@ -38,7 +38,7 @@ def run_tlc(module, cfg=None, workers=1, timeout=600, env=None, scratch=None, ex
     """Run TLC on spec/<module>.tla with spec/<cfg>.cfg.  Returns dict(out, rc, generated, distinct, wall)."""
     own = scratch is None
     scratch = scratch or tempfile.mkdtemp(prefix="cgv_tlc_")
-    meta = os.path.join(scratch, "meta_%s_%d" % (module, os.getpid()))
+    meta = tempfile.mkdtemp(prefix="meta_%s_" % module, dir=scratch)
     args = ["java", "-XX:+UseParallelGC", "-Xss" + xss, "-Xmx" + xmx, "-DTLA-Library=" + SPEC,
             "-cp", JAR, "tlc2.TLC", "-workers", str(workers), "-metadir", meta, "-noGenerateSpecTE"]
     if cfg:
